@@ -40,6 +40,17 @@ def _module_of(fid):
     return "::".join(parts[:-1])
 
 
+def _file_module_of(fid):
+    """Module path without impl-block / type segments: `a::b::<impl T>::f`, `a::b::T::<K>::f` and `a::b::f` -> `a::b`
+    (module names are lower case, type names are not)."""
+    out = []
+    for p_ in fid.split("::")[:-1]:
+        if p_.startswith("<") or "<" in p_ or (p_[:1].isupper()):
+            break
+        out.append(p_)
+    return "::".join(out)
+
+
 def _map_place(pl, lm):
     return {"l": lm(pl["l"]), "p": [("idx:%d" % lm(int(e[4:]))) if e.startswith("idx:") else e for e in pl["p"]]}
 
@@ -95,6 +106,8 @@ def _map_block(blk, lm, bm):
             t2["unwind"] = bm(t["unwind"]) if isinstance(t.get("unwind"), int) else t.get("unwind")
         elif k == "call":
             t2["args"] = [_map_op(a, lm) for a in t["args"]]
+            if t.get("fn_op") is not None:
+                t2["fn_op"] = _map_op(t["fn_op"], lm)
             t2["dest"] = _map_place(t["dest"], lm)
             t2["target"] = bm(t["target"]) if t["target"] is not None else None
             t2["unwind"] = bm(t["unwind"]) if isinstance(t.get("unwind"), int) else t.get("unwind")
@@ -440,6 +453,9 @@ def _closure_of_operand(prog, fn, op, at):
             return prog.fns[rv["closure"]], {"k": "cp", "pl": {"l": l, "p": []}}
         if rv["rv"] == "use" and rv["a"].get("k") == "c" and isinstance(rv["a"].get("v"), dict) and rv["a"]["v"].get("fn") in prog.fns:
             return prog.fns[rv["a"]["v"]["fn"]], None          # a local holding a lib function item
+        if rv["rv"] == "cast" and "ReifyFnPointer" in str(rv.get("kind")) and rv["a"].get("k") == "c" and isinstance(rv["a"].get("v"), dict) \
+                and rv["a"]["v"].get("fn") in prog.fns:
+            return prog.fns[rv["a"]["v"]["fn"]], None          # `f as fn(..)`: a lib function item reified as a function pointer
         if rv["rv"] == "use" and rv["a"].get("k") in ("cp", "mv") and not rv["a"]["pl"]["p"]:
             l = rv["a"]["pl"]["l"]
             continue
@@ -698,6 +714,33 @@ class _NoRewrite(Exception):
     pass
 
 
+def devirtualize_fnptr_calls(prog):
+    """`(ptr)(args)` where `ptr` is, in this very function, a lib function item reified as a function pointer (typically
+    after a helper taking `fn(..)` parameters was inlined into its caller): make it the direct call it is."""
+    n = 0
+    for fn in list(prog.fns.values()):
+        if fn.crate != "abyssiniandb" or not fn.blocks:
+            continue
+        raw = None
+        for b, t in fn.calls():
+            if t.get("callee") is not None or t.get("fn_op") is None:
+                continue
+            g, env = _closure_of_operand(prog, fn, t["fn_op"], b)
+            if g is None or g.kind == "Closure":
+                continue
+            if raw is None:
+                raw = copy.deepcopy(fn.raw)
+            t2 = raw["blocks"][b]["term"]
+            t2["callee"] = g.id
+            t2["callee_full"] = g.id
+            t2["resolved"] = g.id
+            t2.pop("fn_op", None)
+            n += 1
+        if raw is not None:
+            prog.replace_fn(Fn(fn.crate, raw))
+    return n
+
+
 def desugar_closures(prog, max_rounds=4):
     """Rewrite combinator calls over local closures into explicit control flow, in every function of the lib
     (closures included, innermost first by iterating to a fixpoint).  Returns the number of rewritten sites."""
@@ -823,6 +866,92 @@ def strip_debug_asserts(prog):
 
 
 
+def _permute_params(prog, fn, old_inputs, old_names):
+    """Rewrite fn (body and call sites) so that its parameters are in the order old_inputs / old_names.  False if the
+    correspondence is not unambiguous or nothing has to move."""
+    new_names = [fn.locals[i].get("name") for i in range(1, fn.arg_count + 1)]
+    perm = {}          # old position (0-based) -> new position
+    used = set()
+    for i, (ty, nm) in enumerate(zip(old_inputs, old_names)):
+        cands = [j for j, t2 in enumerate(fn.inputs) if t2 == ty and j not in used]
+        if len(cands) > 1:
+            byname = [j for j in cands if new_names[j] == nm and nm is not None]
+            cands = byname if len(byname) == 1 else []
+        if len(cands) != 1:
+            return False
+        perm[i] = cands[0]
+        used.add(cands[0])
+    if all(i == j for i, j in perm.items()):
+        return False
+    # body: local (new position j + 1) becomes (old position i + 1)
+    lm_tab = {perm[i] + 1: i + 1 for i in perm}
+    lm = lambda l: lm_tab.get(l, l)
+    raw = copy.deepcopy(fn.raw)
+    raw["blocks"] = [_map_block(blk, lm, lambda x: x) for blk in raw["blocks"]]
+    locs = list(raw["locals"])
+    for i in perm:
+        raw["locals"][i + 1] = locs[perm[i] + 1]
+    raw["inputs"] = list(old_inputs)
+    prog.replace_fn(Fn(fn.crate, raw))
+    # call sites
+    for caller in list(prog.fns.values()):
+        if caller.crate != "abyssiniandb":
+            continue
+        sites = [b for b, t in caller.calls() if len(t["args"]) == len(old_inputs) and any(x.id == fn.id for x in prog.targets(t, caller)[0])
+                 and len(prog.targets(t, caller)[0]) == 1]
+        if not sites:
+            continue
+        craw = copy.deepcopy(caller.raw)
+        for b in sites:
+            t = craw["blocks"][b]["term"]
+            t["args"] = [t["args"][perm[i]] for i in range(len(old_inputs))]
+            if t.get("arg_tys") and len(t["arg_tys"]) == len(old_inputs):
+                t["arg_tys"] = [t["arg_tys"][perm[i]] for i in range(len(old_inputs))]
+        prog.replace_fn(Fn(caller.crate, craw))
+    return True
+
+
+def reidentify(prog, config="default"):
+    """A private baseline function that has disappeared while exactly one new private function of the same module has
+    the same multiset of parameter types and the same result type (and vice versa) has been renamed, moved to another
+    impl block / turned from method into free function, and / or had its parameters re-ordered.  It is given back its
+    committed owner, name and parameter order so that roles and rules address the same thing.  Returns the ids."""
+    base = load_baseline(config)
+    if base is None:
+        return []
+    missing = {i: v for i, v in base.items() if i not in prog.fns and len(v) >= 5 and v[1] is None}
+    new = [f for f in prog.fns.values() if f.crate == "abyssiniandb" and f.kind in ("Fn", "AssocFn") and f.id not in base
+           and f.impl_trait is None and f.trait_default_of is None and f.blocks and len(f.inputs) == f.arg_count]
+    if not missing or not new:
+        return []
+    def key(inputs, output):
+        return (tuple(sorted(inputs)), output)
+    done = []
+    for gid, (owner, trait, inputs, output, names) in sorted(missing.items()):
+        if len(inputs) < 2:
+            continue
+        cands = [f for f in new if _file_module_of(f.id) == _file_module_of(gid) and key(f.inputs, f.output) == key(inputs, output)]
+        rivals = [g for g, v in missing.items() if _file_module_of(g) == _file_module_of(gid) and key(v[2], v[3]) == key(inputs, output)]
+        if len(cands) != 1 or len(rivals) != 1:
+            continue
+        f = cands[0]
+        old_name = gid.rsplit("::", 1)[-1]
+        if f.impl_self_adt == owner and f.inputs == inputs:
+            continue            # a plain rename: handled by normalize()
+        raw = copy.deepcopy(f.raw)
+        raw["impl_self_adt"] = owner
+        raw["name"] = old_name
+        raw["kind"] = "AssocFn" if owner else "Fn"
+        prog.by_name[f.name] = [x for x in prog.by_name.get(f.name, []) if x.id != f.id]
+        nf = Fn(f.crate, raw)
+        prog.replace_fn(nf)
+        if nf.inputs != inputs:
+            _permute_params(prog, prog.fns[nf.id], inputs, names)
+        new = [x for x in new if x.id != f.id]
+        done.append(f.id)
+    return done
+
+
 def normalize_param_order(prog, config="default"):
     """A private function whose parameters were merely re-ordered (same id, same multiset of parameter types) is
     rewritten back to the committed order - in its body and at every call site - so that rules that address
@@ -838,46 +967,6 @@ def normalize_param_order(prog, config="default"):
         owner, trait, old_inputs, output, old_names = base[fn.id]
         if fn.inputs == old_inputs or sorted(fn.inputs) != sorted(old_inputs) or len(fn.inputs) != fn.arg_count or len(old_names) != len(old_inputs):
             continue
-        new_names = [fn.locals[i].get("name") for i in range(1, fn.arg_count + 1)]
-        perm = {}          # old position (0-based) -> new position
-        used = set()
-        ok = True
-        for i, (ty, nm) in enumerate(zip(old_inputs, old_names)):
-            cands = [j for j, t2 in enumerate(fn.inputs) if t2 == ty and j not in used]
-            if len(cands) > 1:
-                byname = [j for j in cands if new_names[j] == nm and nm is not None]
-                cands = byname if len(byname) == 1 else []
-            if len(cands) != 1:
-                ok = False
-                break
-            perm[i] = cands[0]
-            used.add(cands[0])
-        if not ok or all(i == j for i, j in perm.items()):
-            continue
-        # body: local (new position j + 1) becomes (old position i + 1)
-        lm_tab = {perm[i] + 1: i + 1 for i in perm}
-        lm = lambda l: lm_tab.get(l, l)
-        raw = copy.deepcopy(fn.raw)
-        raw["blocks"] = [_map_block(blk, lm, lambda x: x) for blk in raw["blocks"]]
-        locs = list(raw["locals"])
-        for i in perm:
-            raw["locals"][i + 1] = locs[perm[i] + 1]
-        raw["inputs"] = list(old_inputs)
-        prog.replace_fn(Fn(fn.crate, raw))
-        # call sites
-        for caller in list(prog.fns.values()):
-            if caller.crate != "abyssiniandb":
-                continue
-            sites = [b for b, t in caller.calls() if len(t["args"]) == len(old_inputs) and any(x.id == fn.id for x in prog.targets(t, caller)[0])
-                     and len(prog.targets(t, caller)[0]) == 1]
-            if not sites:
-                continue
-            craw = copy.deepcopy(caller.raw)
-            for b in sites:
-                t = craw["blocks"][b]["term"]
-                t["args"] = [t["args"][perm[i]] for i in range(len(old_inputs))]
-                if t.get("arg_tys") and len(t["arg_tys"]) == len(old_inputs):
-                    t["arg_tys"] = [t["arg_tys"][perm[i]] for i in range(len(old_inputs))]
-            prog.replace_fn(Fn(caller.crate, craw))
-        done.append(fn.id)
+        if _permute_params(prog, fn, old_inputs, old_names):
+            done.append(fn.id)
     return done
